@@ -10,6 +10,7 @@ import (
 	"encoding/json"
 	"errors"
 	"fmt"
+	"io"
 	"reflect"
 	"strconv"
 	"strings"
@@ -88,11 +89,34 @@ type Spec struct {
 	ViaAny bool   // build through zap.Any
 	Ptr    bool   // build through the pointer constructor with a non-nil pointer
 	Label  string
+	// Reenter: the object marshaler logs through ANOTHER logger (JSON and console
+	// cores, context, reflected value, error, namespace) before emitting its own
+	// members - re-entrant use of zap from inside a marshaler.
+	Reenter bool
+}
+
+var reenterLogger = func() *zap.Logger {
+	cfg := zapcore.EncoderConfig{MessageKey: "m", LevelKey: "l", TimeKey: "t", NameKey: "n", CallerKey: "c", EncodeLevel: zapcore.CapitalLevelEncoder,
+		EncodeTime: zapcore.RFC3339NanoTimeEncoder, EncodeCaller: zapcore.ShortCallerEncoder, EncodeDuration: zapcore.StringDurationEncoder}
+	core := zapcore.NewTee(zapcore.NewCore(zapcore.NewJSONEncoder(cfg), zapcore.AddSync(io.Discard), zapcore.DebugLevel),
+		zapcore.NewCore(zapcore.NewConsoleEncoder(cfg), zapcore.AddSync(io.Discard), zapcore.DebugLevel))
+	return zap.New(core, zap.AddCaller()).Named("inner").With(zap.Reflect("ctx", map[string]int{"a": 1}), zap.String("s", "v"))
+}()
+
+func reenterLog() {
+	reenterLogger.Warn("logged from inside a marshaler", zap.Error(errors.New("inner error")), zap.Reflect("r", []any{1, "<x>", nil}),
+		zap.Strings("ss", []string{"a", "b"}), zap.Duration("d", time.Second), zap.Namespace("ns"), zap.Int("i", 1), zap.Object("o", zapcore.ObjectMarshalerFunc(func(e zapcore.ObjectEncoder) error {
+			e.AddString("k", "v")
+			return nil
+		})))
 }
 
 type specObj struct{ s *Spec }
 
 func (m specObj) MarshalLogObject(enc zapcore.ObjectEncoder) error {
+	if m.s.Reenter {
+		reenterLog()
+	}
 	for i, k := range m.s.Kids {
 		if m.s.Err != "" && i == m.s.ErrAt {
 			return errors.New(m.s.Err)
@@ -1204,6 +1228,25 @@ func genSpec(t *rapid.T, depth int, inArray bool, o specOpts) *Spec {
 			kinds = append(kinds, "inline", "dict", "inlinedict", "objects", "objectvalues", "obj", "arr", "inline")
 		}
 	}
+	if depth > 0 && !inArray && rapid.IntRange(0, 79).Draw(t, "deepChain") == 0 {
+		// a chain of nested marshalers far deeper than any ordinary value (nesting has no documented limit)
+		n := rapid.SampledFrom([]int{6, 17, 33, 64, 65, 66, 129, 300}).Draw(t, "chainDepth")
+		mixed := rapid.Bool().Draw(t, "chainWithArrays")
+		leaf := &Spec{Kind: "int", Key: "leaf", V: n}
+		cur := leaf
+		for i := n; i >= 1; i-- {
+			k := "obj"
+			if mixed && i%2 == 0 {
+				k = "arr"
+			}
+			if k == "arr" && cur.Kind != "obj" && cur.Kind != "arr" {
+				k = "obj" // array elements carry no key: keep the keyed leaf inside an object
+			}
+			cur = &Spec{Kind: k, Key: fmt.Sprintf("d%d", i), Kids: []*Spec{cur}}
+		}
+		cur.Key = genKey().Draw(t, "key")
+		return cur
+	}
 	s := &Spec{Kind: rapid.SampledFrom(kinds).Draw(t, "kind")}
 	if !inArray {
 		s.Key = genKey().Draw(t, "key")
@@ -1300,6 +1343,7 @@ func genSpec(t *rapid.T, depth int, inArray bool, o specOpts) *Spec {
 			s.Kids = append(s.Kids, genSpec(t, depth-1, false, o))
 		}
 		drawErr(n)
+		s.Reenter = rapid.IntRange(0, 11).Draw(t, "reentrantMarshaler") == 0
 	case "dict", "inlinedict":
 		n := rapid.IntRange(0, o.maxKids).Draw(t, "nKids")
 		for i := 0; i < n; i++ {
@@ -1338,7 +1382,7 @@ func genSpec(t *rapid.T, depth int, inArray bool, o specOpts) *Spec {
 }
 
 func genSliceValue(t *rapid.T) any {
-	n := rapid.IntRange(0, 3).Draw(t, "sliceLen")
+	n := rapid.SampledFrom([]int{0, 1, 2, 3, 0, 1, 2, 3, 0, 1, 2, 3, 0, 1, 2, 3, 0, 1, 2, 3, 0, 1, 2, 3, 0, 1, 2, 3, 0, 1, 2, 3, 8, 17, 100}).Draw(t, "sliceLen")
 	kind := rapid.SampledFrom([]string{"bools", "bstrs", "c128s", "c64s", "durs", "f64s", "f32s", "ints", "i64s", "i32s", "i16s", "i8s", "strs", "times", "uints", "u64s", "u32s", "u16s", "u8s", "uptrs"}).Draw(t, "sliceKind")
 	switch kind {
 	case "bools":
@@ -1390,6 +1434,10 @@ func drawN[T any](t *rapid.T, n int, g *rapid.Generator[T]) []T {
 	}
 	out := make([]T, n)
 	for i := range out {
+		if i >= 6 {
+			out[i] = out[i%6] // long slices tile a few drawn elements
+			continue
+		}
 		out[i] = g.Draw(t, "elem")
 	}
 	return out
@@ -1397,6 +1445,20 @@ func drawN[T any](t *rapid.T, n int, g *rapid.Generator[T]) []T {
 
 func genSpecs(t *rapid.T, depth, max int, o specOpts, label string) []*Spec {
 	n := rapid.IntRange(0, max).Draw(t, label)
+	if max >= 3 && rapid.IntRange(0, 39).Draw(t, "wideFieldList") == 0 {
+		// many fields in one list (beyond every pre-sized slice): cheap scalar ones
+		n = rapid.SampledFrom([]int{9, 17, 33, 65}).Draw(t, "wideCount")
+		nsRun := rapid.Bool().Draw(t, "namespaceRun") // ... or that many namespaces opened one inside the other
+		out := make([]*Spec, 0, n)
+		for i := 0; i < n; i++ {
+			if nsRun && i%2 == 0 {
+				out = append(out, &Spec{Kind: "ns", Key: fmt.Sprintf("n%d", i)})
+				continue
+			}
+			out = append(out, &Spec{Kind: "int", Key: fmt.Sprintf("w%d", i), V: i})
+		}
+		return out
+	}
 	out := make([]*Spec, 0, n)
 	for i := 0; i < n; i++ {
 		out = append(out, genSpec(t, depth, false, o))
